@@ -602,8 +602,8 @@ def write_replay(pid, fam_result, m, seed):
     os.makedirs(REPLAYS, exist_ok=True)
     if fam_result.get('is_trace') and m.get('reset'):
         seed = m['reset']['seed']
-        fam_result = dict(fam_result, scale=m['reset']['scale'], walker={'l1': 'l1-walk', 'l2': 'l2-walk', 'val': 'val-walk', 'br': 'bridge-walk'}.get(fam_result.get('mod'), fam_result['walker']), meta=dict(driver=True))
-    body = dict(property=pid, family=fam_result['name'], walker=fam_result['walker'], seed=seed, scale=fam_result['scale'], tickscale=fam_result.get('tickscale') or '1',
+        fam_result = dict(fam_result, scale=m['reset']['scale'], walker={'l1': 'l1-walk', 'l2': 'l2-walk', 'val': 'val-walk', 'br': 'bridge-walk', 'or': 'oracle-walk'}.get(fam_result.get('mod'), fam_result['walker']), meta=dict(driver=True))
+    body = dict(property=pid, family=fam_result['name'], run=m.get('run') or 0, walker=fam_result['walker'], seed=seed, scale=fam_result['scale'], tickscale=fam_result.get('tickscale') or '1',
                 meta=fam_result['meta'], path=m.get('path') or [], event=m.get('event'), expect=dict(
                     spec_ok=m.get('spec_ok'), failed_guards=m.get('failed_guards'), fields=m.get('fields'), detail=m.get('detail')),
                 observed=dict(impl_ok=m.get('impl_ok'), impl_err=m.get('impl_err')), kind=m['kind'])
